@@ -4,16 +4,16 @@ CONSTANTS
   NS = 3
   NA = 2
   NE = 2
-  PDs = {2, 4}
+  PDs = {2}
   Gammas <- GammaOne
   RewSet <- Rew5
   V0Set <- V0a
   EpsSet <- EpsA
   Tests = {"span"}
   Periods = {1}
-  NumGadgets = 40
+  NumGadgets = 16
   MaxScale = 1048576
-  Bug = "none"
+  Bug = "rvi_gain_zero"
   MaxIter = 18
 INVARIANT WellFormedInv
 INVARIANT RVIResidualWithinEps
